@@ -558,9 +558,9 @@ int main(int argc, char** argv)
 {
   FEAT::Runtime::ScopeGuard guard(argc, argv);
   std::vector<Target> tg;
-  tg.push_back({"graph", graph_target, 160, 8});
-  tg.push_back({"perm", perm_target, 64, 3});
-  tg.push_back({"coloring", coloring_target, 128, 6});
-  tg.push_back({"cmk", cmk_target, 128, 6});
+  tg.push_back({"graph", graph_target, 160, 8, 4000});
+  tg.push_back({"perm", perm_target, 64, 3, 4000});
+  tg.push_back({"coloring", coloring_target, 128, 6, 4000});
+  tg.push_back({"cmk", cmk_target, 128, 6, 4000});
   return main_impl(argc, argv, tg);
 }
